@@ -125,18 +125,23 @@ def setup():
 
 
 class Job:
-    def __init__(self, j, gates):
+    def __init__(self, j, gates, raises=False):
         self.j = j
         self.gates = gates
+        self.raises = raises
 
     def __call__(self):
         sc = S.CUR
         LOG.append({"e": "JobStart", "j": self.j, "w": widx()})
         sc.yield_point(lambda: self.gates.get(self.j, False))
         LOG.append({"e": "JobEnd", "j": self.j, "w": widx()})
+        if self.raises:
+            raise RuntimeError("job %d ends with an exception" % self.j)      # a job may fail; its worker is still the pool's
 
 
-def run_once(T, config, chooser, script, size, mn):
+def run_once(T, config, chooser, script, size, mn, eager=False, raising=False):
+    """eager: the submitting thread does not pause after a submission that is followed by another submission or by the close;
+    raising: every second job ends with an exception"""
     config.THREADPOOL_SIZE = size
     config.THREADPOOL_SIZE_MIN = mn
     del LOG[:]
@@ -151,21 +156,28 @@ def run_once(T, config, chooser, script, size, mn):
         if p is not None:
             mx[0] = max(mx[0], p.num_workers())
         return chooser(names, sc)
+    ch.wants_timers = getattr(chooser, "wants_timers", False)
 
     def main():
         sc = S.CUR
-        pool = T.Pool()
+        try:
+            pool = T.Pool()
+        except ValueError:
+            LOG.append({"e": "ConfigRefused"})       # minimum above maximum: refusing to start is the one correct reaction
+            return
         pool._verif_log = True
         pool_ref[0] = pool
         j = rel = 0
         closed = False
-        for a in script:
+        for ai, a in enumerate(script):
             if a == "submit":
                 j += 1
                 try:
-                    pool.process(Job(j, gates))
+                    pool.process(Job(j, gates, raises=raising and j % 2 == 1))
                 except (T.NoFreeWorkersError, T.PoolError):
                     pass
+                if eager and ai + 1 < len(script) and script[ai + 1] in ("submit", "close"):
+                    continue
             elif a == "release":
                 rel += 1
                 gates[rel] = True
@@ -330,7 +342,32 @@ def run(ctx):
     runs = 0
     per_script_random = ctx.pick(6, 30)
     dfs_limit = ctx.pick(130, 400)      # bound 1: every single preemption point of the run (quick); bound 2 sampled breadth-first (thorough)
+    def keep(tr, meta):
+        key = json.dumps(tr, sort_keys=True)
+        if key not in traces:
+            traces[key] = (tr, meta)
     for script in scripts:
+        for (size, mn) in sizes:
+            # variants under the default schedule: an eager submitter, jobs that end with an exception
+            for eager, raising in ((True, False), (False, True), (True, True)):
+                ch = S.PreemptionBounded(())
+                tr = run_once(T, config, ch, script, size, mn, eager=eager, raising=raising)
+                runs += 1
+                keep(tr, {"script": list(script), "size": size, "min": mn, "schedule": list(ch.names), "eager": eager, "raising": raising})
+        if "close" in script:
+            # the eager submitter racing with the close: every single switch point (including the end of close()'s grace period)
+            for (size, mn) in sizes[:2]:
+                def once_eager(ch):
+                    return run_once(T, config, ch, script, size, mn, eager=True)
+                for ch, tr in S.explore(once_eager, max_preemptions=1, limit=ctx.pick(40, 200), rng=rng, random_runs=0):
+                    runs += 1
+                    keep(tr, {"script": list(script), "size": size, "min": mn, "schedule": list(ch.names), "eager": True, "raising": False})
+        # a minimum above the maximum: the pool must refuse to start rather than run more workers than allowed
+        ch = S.PreemptionBounded(())
+        tr = run_once(T, config, ch, script, 1, 2)
+        runs += 1
+        if not any(e["e"] == "ConfigRefused" for e in tr):
+            keep(tr, {"script": list(script), "size": 1, "min": 2, "schedule": list(ch.names)})
         for (size, mn) in sizes:
             def once(ch):
                 return run_once(T, config, ch, script, size, mn)
@@ -382,7 +419,7 @@ def replay(ctx, path):
                 if n in en:
                     return n
             return en[0]
-        tr = run_once(T, config, chooser, meta["script"], meta["size"], meta["min"])
+        tr = run_once(T, config, chooser, meta["script"], meta["size"], meta["min"], eager=meta.get("eager", False), raising=meta.get("raising", False))
         v, _ = tlc.validate(ctx, "Trace_Pool", [tr], cfg_text=TRACE_CFG, mode="search")
         print("replay:", meta["script"], meta["size"], meta["min"], "->", v[0] or "accepted", "| same history:", tr == case["history"])
         bad += bool(v[0])
